@@ -129,7 +129,10 @@ def composites(leaf):
     K("oneof_null", {"oneOf": [s, {"type": "null"}]})
     K("anyof_null", {"anyOf": [s, {"type": "null"}]})
     if isinstance(s.get("type"), str) and s.get("type") != "null":
-        K("type_null", dict(s, type=[s["type"], "null"]))
+        tn = dict(s, type=[s["type"], "null"])
+        if "enum" in tn:
+            tn["enum"] = list(tn["enum"]) + [None]   # keep the schema coherent: the null the type admits is a member
+        K("type_null", tn)
     K("allof1", {"allOf": [s]})
     K("oneof1", {"oneOf": [s]})
     # oneOf in the four serde tagging shapes, leaf as payload
@@ -247,6 +250,10 @@ def shapes_depth2(tier):
 
 def place(shape, ctx):
     """-> dict(id, doc, target, ff, enf) or None when the context cannot hold the shape."""
+    if ctx["id"] in ("nullable_oneof", "ref_nullable"):
+        from ..universe import _admits_null
+        if _admits_null(shape["schema"], {}):
+            return None   # null would match both branches of the wrapping union: not a coherent schema
     doc = ctx["build"](copy.deepcopy(shape["schema"]))
     if doc is None:
         return None
